@@ -20,6 +20,8 @@ def load_map():
     return props
 
 def props_for(props, file, func):
+    if func == "(package level)":
+        return sorted(props)  # an initialiser may matter to any property: try them all (stops at the first that flags it)
     pkg = "parser" if file.startswith("internal/parser") else "sse"
     key = f"{pkg}.{func}"
     out = []
@@ -71,13 +73,14 @@ def run_one(args):
         shutil.rmtree(tmp, ignore_errors=True)
 
 def main():
-    workers, only = 4, None
+    workers, only, gen2 = 4, None, False
     a = sys.argv[1:]
     while a:
         if a[0] == "--workers": workers = int(a[1]); a = a[2:]
         elif a[0] == "--only": only = a[1]; a = a[2:]
+        elif a[0] == "--gen2": gen2 = True; a = a[1:]
         else: a = a[1:]
-    out = subprocess.run([os.path.join(VERIF, "bin/mutgen"), REPO], capture_output=True, text=True).stdout
+    out = subprocess.run([os.path.join(VERIF, "bin/mutgen"), REPO] + (["-gen2"] if gen2 else []), capture_output=True, text=True).stdout
     muts = [json.loads(l) for l in out.splitlines() if l.strip()]
     if only: muts = [m for m in muts if only in m["file"] or only in m["func"]]
     props = load_map()
